@@ -60,8 +60,14 @@ class _Base:
 class SQLStore(_Base):
     backend = "sql"
 
-    def __init__(self, validators=(), authentication=None, output_validator=None, url="sqlite+aiosqlite:///:memory:"):
+    def __init__(self, validators=(), authentication=None, output_validator=None, url="sqlite+aiosqlite:///:memory:",
+                 service_key=None):
         from lib.sqlimpl import SQLImpl
+
+        common.setup_paths()
+        from nostr_relay.config import Config
+
+        Config.service_privatekey = service_key or ""
 
         self.impl = SQLImpl(validators=validators, authentication=authentication, output_validator=output_validator, url=url)
         self.loop = self.impl.loop
@@ -79,7 +85,7 @@ class SQLStore(_Base):
         return self.impl.dump()
 
     def gc(self, now, collector=None):
-        return self.impl.gc(now, collector)
+        return self.impl.gc(now, collector, overlap=getattr(self, "gc_overlap", False))
 
     def new_collector(self):
         return self.impl.new_collector()
@@ -94,11 +100,14 @@ class SQLStore(_Base):
 class KVStore(_Base):
     backend = "kv"
 
-    def __init__(self, validators=(), authentication=None, output_validator=None):
+    def __init__(self, validators=(), authentication=None, output_validator=None, service_key=None):
         common.setup_paths()
         from nostr_relay.config import Config
         from nostr_relay.storage import kv
 
+        self._args = dict(validators=validators, authentication=authentication, output_validator=output_validator,
+                          service_key=service_key)
+        Config.service_privatekey = service_key or ""
         self.kv = kv
         self.loop = asyncio.new_event_loop()
         asyncio.set_event_loop(self.loop)
@@ -141,7 +150,7 @@ class KVStore(_Base):
 
     def reset(self):
         self.close()
-        self.__init__()
+        self.__init__(**self._args)
 
     def dump(self):
         with self.env.begin() as txn:
